@@ -488,6 +488,7 @@ func newEnvironment(userVars map[string]string, newId uid.ID) (env *Environment,
 				}()
 
 				trigger := fmt.Sprintf("after_%s", e.Event)
+				enterErr := e.Err // set by enter_<state>, must not be lost if hooks fail here too
 
 				the.EventWriterWithTopic(topic.Environment).WriteEvent(&pb.Ev_EnvironmentEvent{
 					EnvironmentId:        env.id.String(),
@@ -503,7 +504,7 @@ func newEnvironment(userVars map[string]string, newId uid.ID) (env *Environment,
 				errHooks := env.handleHooksWithNegativeWeights(env.Workflow(), trigger)
 				if errHooks != nil {
 					// at after_<event> it will not cancel the transition but only set the error
-					e.Cancel(errHooks)
+					e.Cancel(errors.Join(enterErr, errHooks))
 				}
 
 				if rn := env.GetCurrentRunNumber(); rn != 0 {
@@ -606,7 +607,7 @@ func newEnvironment(userVars map[string]string, newId uid.ID) (env *Environment,
 
 				errHooks = errors.Join(errHooks, env.handleHooksWithPositiveWeights(env.Workflow(), trigger))
 				if errHooks != nil {
-					e.Cancel(errHooks)
+					e.Cancel(errors.Join(enterErr, errHooks))
 				}
 
 				errorMsg := ""
